@@ -54,6 +54,7 @@ CHECKS = {
         "runs": [
             {"harnesses": [H + "ZZH14aJobs"], "flags": VLQ_REDIRECT, "quick": {"T": 1}, "thorough": {"T": 2}},
             {"harnesses": [H + "ZZH14bBuilderReuse"], "flags": VLQ_REDIRECT, "quick": {"T": 1, "T1": 0}, "thorough": {"T": 2, "T1": 0}},
+            {"harnesses": [H + "ZZH14dReconfigure"], "flags": VLQ_REDIRECT, "quick": {"T": 1}, "thorough": {"T": 2}},
             # (no VLQ stand-in here: positions are concrete, the real codec runs under the confinement monitor)
             {"harnesses": [H + "ZZH14cCompile"], "quick": dict(GEN_Q, budget=1, trivia=1), "thorough": dict(GEN_Q, trivia=1)},
         ],
@@ -243,6 +244,8 @@ CHECKS = {
         "runs": [
             {"harnesses": [H + "ZZH13aTolerant", H + "ZZH13cSmart"], "flags": VLQ_REDIRECT, "quick": {"T": 2}, "thorough": {"T": 3}},
             {"harnesses": [H + "ZZH13bTolerantExtras", H + "ZZH13dSmartBreaks"], "flags": VLQ_REDIRECT, "quick": GEN_Q, "thorough": GEN_T},
+            # the mode flags are copied into each parser at Build time (a shared builder reconfigured before the parser is used)
+            {"harnesses": [H + "ZZH14dReconfigure"], "flags": VLQ_REDIRECT, "quick": {"T": 1}, "thorough": {"T": 2}},
         ],
     },
     "C16": {
